@@ -211,6 +211,18 @@ def disk_refs_repo(mock_repo, git_dir, refs_seed, loose):
     return disk_repo, stats
 
 
+class TRepoHook(TRepo):
+    """a project whose build tags look like 'lib-1.2-b13': it overrides the documented hook that turns a tag into
+    build numbers (major and minor are in the tag, the patch number is the build number)"""
+
+    @classmethod
+    def parse_buildtag(cls, tag_str):
+        m = re.match(r"lib-(\d+)\.(\d+)-b(\d+)$", tag_str)
+        if m is None:
+            return None
+        return BuildNumData(int(m.group(1)), int(m.group(2)), None, build=int(m.group(3)))
+
+
 class TRepoCI(TRepo):
     """a project whose build tags follow its own pattern (the class-level pattern is the customisation point)"""
     _RE_BUILD_TAG = re.compile(r"ci-(?P<build>\d+)-(?P<branch>.*)-ok$")
@@ -243,6 +255,8 @@ class TRepoSavedTwoSources(TRepoSaved):
 def component_repo_for(repo_id, repo, remote='origin'):
     saved = not repo.tags and any(c.tree.files.get("VERSION") is not None and
                                   c.tree.files["VERSION"].data.count(b".") == 2 for c in repo.commits.values())
+    if any(t.startswith("lib-") for t in repo.tags):
+        return TRepoHook(repo_id, repo, remote)
     two = any("version.txt" in c.tree.files for c in repo.commits.values())
     if two:
         return (TRepoSavedTwoSources if saved else TRepoTwoSources)(repo_id, repo, remote)
